@@ -397,8 +397,8 @@ pub fn e1_check(id: &str) -> Option<Check> {
             Check {
                 id: "C17",
                 profile: p,
-                deciding: &["O-guard", "O-lin"],
-                rule: "projection guards (Map over the container) held across concurrent stores and dereferenced later. Oracle: identity through the projected guard is constant; loads linearizable. Non-trivial: a projected guard was held while a write overlapped.",
+                deciding: &["O-guard", "O-lin", "O-uaf"],
+                rule: "projection guards (Map over the container) held across concurrent stores and dereferenced later. Oracle: identity through the projected guard is constant; the snapshot of a live guard is never destroyed (O-uaf, also after the guard moved to another thread and its origin exited); loads linearizable. Non-trivial: a projected guard was held while a write overlapped.",
                 nontrivial: |_, o| o.hs.map_guards > 0 && o.stats.overlap_rw + o.stats.writes_overlapped > 0,
                 quick: 20_000,
                 thorough: 500_000,
